@@ -70,7 +70,20 @@ var sessionGeos = []geoT{
 	mkGeo(32, "167837696", 24, 28),                               // 16 x /28
 	mkGeo(128, "42540766411282592856903984951653826560", 62, 64), // 4 x /64
 	mkGeo(32, "3232235776", 28, 30),                              // 192.168.1.0/28 -> 4 x /30
+	mkGeo(128, "42540766411282592856903984951653826560", 52, 56), // /56 delegation out of a /52
+	mkGeo(32, "167772160", 23, 27),                               // not byte aligned
 }
+// round-trip geometries: both families, address pools and prefix delegation, non-byte-aligned lengths
+var rtGeos = append(append([]geoT{}, sessionGeos...),
+	mkGeo(128, "42540766411282592856903984951653826560", 120, 128), // 2001:db8::/120 -> 256 x /128 addresses
+	mkGeo(128, "42540766411282592856903984951653826560", 40, 48),   // /48 delegation out of a /40
+	mkGeo(128, "42540766411282592856903984951653826560", 52, 56),   // /56 delegation out of a /52
+	mkGeo(128, "42540766411282592856903984951653826560", 57, 60),   // /60 out of a /57 (not byte aligned)
+	mkGeo(128, "42540766411282592856903984951653826560", 61, 64),   // /64 subscriber prefixes out of a /61
+	mkGeo(128, "42540766411282592856903984951653826560", 123, 127), // /127 out of a /123
+	mkGeo(32, "167772160", 23, 27),                                 // 10.0.0.0/23 -> /27 (not byte aligned)
+	mkGeo(32, "2886729728", 19, 25),                                // 172.16.0.0/19 -> /25
+)
 var leaseGeos = []geoT{
 	mkGeo(32, "167772160", 29, 32), // 8 slots, 6 usable
 	mkGeo(32, "167772160", 28, 32), // 16 slots
@@ -79,6 +92,32 @@ var leaseGeos = []geoT{
 
 func distCase(g geoT, lease bool, univ int, origin string) Case {
 	return Case{Kind: "dist", Lease: lease, Bits: g.bits, Base: g.base, PPL: g.ppl, PL: g.pl, Univ: univ, Origin: origin}
+}
+
+// subscriber ids as circuit ids / paths: '/', leading and trailing '/', "..", empty segments, ids that are
+// suffixes or prefixes of one another, the store-key prefix itself.  Families are built so that a
+// table contains an id together with its last path segment(s).
+var idFamilies = [][]string{
+	{"olt1/pon3/onu7", "onu7", "pon3/onu7", "olt1/pon3", "olt1", "onu"},
+	{"a/b", "b", "a", "a/b/", "/a/b", "a//b"},
+	{"..", "a/..", "../b", "b", "a/../b", "."},
+	{"/", "//", "/x", "x/", "x", "x//"},
+	{"/allocation/p/", "/allocation/p/s0", "s0", "allocation/p/s0", "p/s0", "/allocation/"},
+	{"s0", "s1", "s2", "s3", "s4", "s5"},
+}
+var poolIDs = []string{"p", "p", "pool/1", "p/"}
+
+func withIDs(r *vh.Rng, c Case) Case {
+	if r.Chance(1, 4) {
+		return c // default ids s0, s1, ...
+	}
+	fam := idFamilies[r.Intn(len(idFamilies))]
+	perm := randPerm(r, len(fam))
+	for h := 0; h < c.Univ && h < len(fam); h++ {
+		c.Names = append(c.Names, fam[perm[h]])
+	}
+	c.Pool = poolIDs[r.Intn(len(poolIDs))]
+	return c
 }
 
 // every sequence of length n over alphabet
@@ -127,6 +166,9 @@ func genExhaustive(lease bool, g geoT, univ, depth int, origin string, allFail b
 						}
 					}
 				}
+			}
+			if fam := idFamilies[(si+len(out))%len(idFamilies)]; si%2 == 0 {
+				c.Names = fam[:univ]
 			}
 			out = append(out, c)
 		}
@@ -216,7 +258,7 @@ func genRandomDist(r *vh.Rng, lease bool, n, maxOps int, guarded bool, origin st
 		} else if rr.Chance(2, 3) {
 			c.Sync = false
 		}
-		out = append(out, c)
+		out = append(out, withIDs(rr, c))
 	}
 	return out
 }
@@ -256,7 +298,7 @@ func genBitmapRT(r *vh.Rng, n, maxOps int) []Case {
 	var out []Case
 	for i := 0; i < n; i++ {
 		rr := r.Fork()
-		g := sessionGeos[rr.Intn(len(sessionGeos))]
+		g := rtGeos[rr.Intn(len(rtGeos))]
 		univ := 2 + rr.Intn(4)
 		c := Case{Kind: "bitmap", Bits: g.bits, Base: g.base, PPL: g.ppl, PL: g.pl, Univ: univ, Origin: "random"}
 		nops := 1 + rr.Intn(maxOps)
@@ -311,7 +353,7 @@ func genEpochRT(r *vh.Rng, n, maxOps int) []Case {
 			base    string
 			ppl, pl int
 		}
-		egs := []eg{{"167772160", 29, 32}, {"167772160", 28, 32}, {"167772160", 24, 32}, {"167837696", 24, 28}, {"167837696", 16, 20}, {"3232235776", 28, 30}, {"167772160", 30, 32}}
+		egs := []eg{{"167772160", 29, 32}, {"167772160", 28, 32}, {"167772160", 24, 32}, {"167837696", 24, 28}, {"167837696", 16, 20}, {"3232235776", 28, 30}, {"167772160", 30, 32}, {"167772160", 23, 27}, {"2886729728", 19, 25}, {"167772160", 27, 31}}
 		g := egs[rr.Intn(len(egs))]
 		univ := 2 + rr.Intn(4)
 		c := Case{Kind: "epoch", Base: g.base, PPL: g.ppl, PL: g.pl, Grace: uint64(rr.Intn(4)), Univ: univ, Origin: "random"}
@@ -355,7 +397,7 @@ func genStoreRT(r *vh.Rng, n, maxOps int, canonical bool) []Case {
 			case x < 11:
 				o := Op{K: "save", H: h, Pool: pool, Typ: rr.Intn(4), Mac: rr.Bool(), IAID: rr.Intn(3)}
 				if rr.Chance(1, 4) { // IPv6 prefix
-					o.Bits, o.PL = 128, 56+8*rr.Intn(2)
+					o.Bits, o.PL = 128, []int{56, 64, 60, 52, 128, 127}[rr.Intn(6)]
 					v := new(big.Int).Add(bigOf("42540766411282592856903984951653826560"), new(big.Int).Lsh(big.NewInt(int64(rr.Intn(4))), uint(128-o.PL)))
 					if !canonical && rr.Chance(1, 3) {
 						v.Add(v, big.NewInt(int64(1+rr.Intn(9))))
